@@ -50,6 +50,8 @@ func main() {
 			out.WriteByte('\n')
 			out.Flush()
 		}
+	case "peer":
+		h.PeerMain()
 	case "meta":
 		m := h.Metas[os.Args[2]]
 		if m == nil {
@@ -105,6 +107,7 @@ func main() {
 
 func runIdx(prop, tier string, base uint64, idx int) *h.Result {
 	seed := h.RunSeed(base, prop, idx)
+	h.GenIdx = idx
 	c, gen := h.GenCase(prop, seed, tier)
 	if c == nil {
 		return &h.Result{Idx: idx, Seed: seed, Outcome: "infra", Note: "no generator for " + prop}
